@@ -974,8 +974,6 @@ class C06Trix(Suite):
     model = "xt_model"
     oeq = "xt_obs_eqb"
     spec = "xt_spec"
-    kf = "xt_kf"
-    kf_ids = {1: "F20"}
     corr = ("serializers/trix.py TriXSerializer.serialize/_writeGraph/_writeTriple, parsers/trix.py TriXHandler."
             "startElementNS/endElementNS/get_bnode (driven with SAX events built from the tree; XML text: the XML library's)")
     quick_n = 300
